@@ -40,6 +40,7 @@ type Result struct {
 	Outcomes    []string   `json:"outcomes,omitempty"`
 	Diverged    int64      `json:"diverged"`
 	Retries     int64      `json:"retries"`
+	DivSample   string     `json:"divSample,omitempty"`
 	Horizon     int64      `json:"horizon"`
 	Unsettled   int64      `json:"unsettled"`
 	MaxPreempt  int        `json:"maxPreempt"`
@@ -142,7 +143,7 @@ func Explore(cfg *harness.Config, rep *harness.Report, p *pool.Pool, programs []
 			if r.Hung {
 				kind = "hung"
 			}
-			rep.Violate(harness.Violation{Sig: "process-" + kind + "-under-scheduler", Detail: fmt.Sprintf("worker %s while executing prefix %v: %s", kind, j.Prefix, tail(r.Stderr, 6000)), Replay: Replay{Program: j.Program, Choices: j.Prefix}})
+			rep.Violate(harness.Violation{Sig: "process-" + kind + "-under-scheduler", Detail: fmt.Sprintf("worker %s while executing prefix %v: %s", kind, j.Prefix, tail(r.Stderr, 600000)), Replay: Replay{Program: j.Program, Choices: j.Prefix}})
 			return
 		}
 		if r.Err != "" {
@@ -158,6 +159,9 @@ func Explore(cfg *harness.Config, rep *harness.Report, p *pool.Pool, programs []
 		st.Steps += res.Steps
 		st.Diverged += res.Diverged
 		st.Retries += res.Retries
+		if res.DivSample != "" {
+			rep.Set("divergence_sample", res.DivSample)
+		}
 		st.Horizon += res.Horizon
 		st.Unsettled += res.Unsettled
 		rep.Transitions += res.Steps
